@@ -13,6 +13,8 @@ import (
 	"path/filepath"
 	"testing"
 
+	"pgregory.net/rapid"
+
 	"verifharness/ev"
 	"verifharness/ref/rtpwire"
 	"verifharness/ref/vla"
@@ -182,3 +184,50 @@ func FuzzC19(f *testing.F) {
 		}
 	})
 }
+
+// ---- coverage-guided exploration of the rapid generators themselves
+//
+// rapid.MakeFuzz turns a rapid property into a native fuzz target: the fuzzer's bytes
+// become rapid's random bit stream, so `go test -fuzz` searches the space of generator
+// choices guided by coverage of the code under test (all cores). Same cases, same pure
+// check functions, same JSON replay on failure.
+
+func rapidFuzz[C any](f *testing.F, s *Sub[C], gen func(*rapid.T) *C) {
+	f.Helper()
+	m := splitmix{s: 0xC0FFEE}
+	for i := 0; i < 8; i++ {
+		b := make([]byte, 64<<uint(i%4))
+		for j := range b {
+			b[j] = byte(m.next())
+		}
+		f.Add(b)
+	}
+	f.Add(make([]byte, 512))
+	r := fuzzRun(s.prop)
+	f.Fuzz(rapid.MakeFuzz(func(t *rapid.T) {
+		c := gen(t)
+		if _, err := s.exec(r, c); err != nil {
+			raw, _ := json.Marshal(c)
+			b, _ := json.MarshalIndent(replayFile{Property: s.prop, Sub: s.name, Error: firstLine(err.Error()), Case: raw}, "", " ")
+			dir := getenv("VERIF_REPLAY_DIR", "/verif/replays")
+			_ = os.MkdirAll(dir, 0o755)
+			p := filepath.Join(dir, s.prop+"-"+s.name+"-fuzz.json")
+			_ = os.WriteFile(p, b, 0o644)
+			t.Fatalf("%s/%s: %v\nreplay: %s", s.prop, s.name, err, p)
+		}
+	}))
+}
+
+func FuzzRapidC01(f *testing.F)     { rapidFuzz(f, subC01, genPacketModel) }
+func FuzzRapidC05(f *testing.F)     { rapidFuzz(f, subC05, genExtSeqCase) }
+func FuzzRapidC06(f *testing.F)     { rapidFuzz(f, subC06, genPktzCase) }
+func FuzzRapidC10(f *testing.F)     { rapidFuzz(f, subC10Pay, genH264PayCase) }
+func FuzzRapidC10Dec(f *testing.F)  { rapidFuzz(f, subC10Dec, genH264DecCase) }
+func FuzzRapidC11(f *testing.F)     { rapidFuzz(f, subC11Desc, genVP8DescCase) }
+func FuzzRapidC12(f *testing.F)     { rapidFuzz(f, subC12Pay, genVP9PayCase) }
+func FuzzRapidC12Desc(f *testing.F) { rapidFuzz(f, subC12Desc, genVP9DescCase) }
+func FuzzRapidC13(f *testing.F)     { rapidFuzz(f, subC13, genAV1Case) }
+func FuzzRapidC14(f *testing.F)     { rapidFuzz(f, subC14Pay, genH265PayCase) }
+func FuzzRapidC14Dec(f *testing.F)  { rapidFuzz(f, subC14Dec, genH265DecCase) }
+func FuzzRapidC15(f *testing.F)     { rapidFuzz(f, subC15, genLossCase) }
+func FuzzRapidC20(f *testing.F)     { rapidFuzz(f, subC20, genCloneCase) }
